@@ -911,6 +911,11 @@ impl Accept {
                     assert(!pre.has_idx(idx) ==> self.avail@ == pre.avail@);
                     assert(self.handles == pre.handles && self.next == pre.next && self.paused == pre.paused);
 //@insert arm_end="Some(WakerInterest::WorkerAvailable(idx)) =>"
+                    // a notification that arrives WHILE PAUSED is recorded all the same (the worker sends it once, when it
+                    // drops below its limit: if it were only consumed, the worker would stay unavailable after resume).
+                    // Stated at the end of the arm, not next to the statement: it must hold on every path through it   [C01,C03,C05]
+                    assert(self.paused && pre.has_idx(idx) ==> self.avail@ == pre.avail@.insert(idx));   // [C01,C03,C05]
+                    assert(self.paused ==> self.handles == pre.handles && self.next == pre.next);   // [C03]
                     // a worker became available: unless paused every listener has been offered the capacity  [C03]
                     assert(!self.paused ==> (!self.has_capacity() || forall|k: int| 0 <= k < sockets@.len() ==>
                         (#[trigger] sockets@[k]).lst.drained() || sockets@[k].timeout.is_some()));
@@ -928,6 +933,9 @@ impl Accept {
                         }
                     }
 //@insert arm_end="Some(WakerInterest::Worker(handle)) =>"
+                    // while paused too the replacement joins the rotation and is marked available (end of the arm: every path)   [C08]
+                    assert(self.paused ==> self.handles@.len() == pre.handles@.len() + 1
+                        && self.avail@ == pre.avail@.insert(self.handles@.last().spec_idx()));   // [C08]
                     assert(!self.paused ==> (!self.has_capacity() || forall|k: int| 0 <= k < sockets@.len() ==>
                         (#[trigger] sockets@[k]).lst.drained() || sockets@[k].timeout.is_some()));   // [C03,C08]
 //@insert arm_end="Some(WakerInterest::Pause) =>"
